@@ -156,7 +156,7 @@ func (c *Ctx) stratCaseWith(typeKey string, sp Spec, b Bars, reg string) (int, b
 	}
 	acts, hung := runStrategy(inst, b, time.Second)
 	if hung { // confirm with a generous limit: a loaded machine must not look like a deadlock
-		acts, hung = runStrategy(inst, b, 6*time.Second)
+		acts, hung = runStrategy(inst, b, 4*time.Second)
 	}
 	n := len(b.Close)
 	term := fmt.Sprintf("(let c_ := %s in CStrat %s %s %s %s %s %s)", cfg, atF(t.Coq+"_Compute", "c_ (EIn 0)"), warm, adm, coqBars(b), coqListZ(acts), coqBool(hung))
